@@ -68,7 +68,7 @@ def plan(tier, seed):
     global TIER
     TIER = tier
     L = 5 if tier == "quick" else 6
-    shards = [("automata", L), ("tokens", "N"), ("tokens", "S"), ("tokens", "E"), ("groups", "N"), ("groups", "S"), ("groups", "E"), ("nearmiss",)]
+    shards = [("automata", L), ("tokens", "N"), ("tokens", "S"), ("tokens", "E"), ("groups", "N"), ("groups", "S"), ("groups", "E"), ("nearmiss",), ("twins",)]
     shards += [("blocks", B, part) for B in blocks.BLOCKS for part in range(4)]
     return dict(shards=shards, bounds=dict(alphabet_size=len(A.SIGMA), conformance_string_length=L, string_length="unbounded (automata)"), budget_s=900)
 
@@ -150,6 +150,8 @@ def run_shard(shard, ctx):
         blocks.sweep(ctx, "track-line-at-block-boundary", _block_text, "ExpertSingle", blocks=(shard[1],), part=shard[2], parts=4, vias=("file",) if shard[1] > 8192 else ("file", "path"))
     elif kind == "automata":
         _automata(ctx, shard[1])
+    elif kind == "twins":
+        _twins(ctx)
     elif kind == "tokens":
         _tokens(ctx, shard[1])
     elif kind == "nearmiss":
@@ -290,6 +292,34 @@ def _foreign_digits(ctx):
             ctx.case(("foreign-digit", line), sample=dict(line=line))
             ctx.evaluations += 1
             e1.check_model(ctx, "accepts-non-line", text, refmodel.model(text), msg="index written with the non-ASCII digit U+%04X: line %r" % (ord(d), line), drop=DROP)
+
+
+def _twins(ctx):
+    """Near-misses that differ from a canonical line of the SAME chart (or of a chart parsed just before) only in
+    their separators: a doubled blank, a TAB, a missing blank. Alone they are not lines; they stay non-lines when
+    their canonical twin - same tick, index, length / word - was decoded a moment ago (memo tables keyed by the
+    fields of a line)."""
+    good = dict(N="2 = N 3 4", S="2 = S 2 7", E="2 = E solo")
+    for k, g in good.items():
+        toks = g.split(" ")
+        variants = []
+        for i in range(1, len(toks)):
+            for sep in ("  ", "\t", " \t", ""):
+                if k == "E" and i == len(toks) - 1 and "\t" in sep and sep != "\t":
+                    continue  # a TAB inside the word of an E line is a declared grey zone (DESIGN.md 3.4)
+                variants.append(" ".join(toks[:i]) + sep + " ".join(toks[i:]))
+        variants += [g.replace(" = ", " =  "), g.replace("=", "=="), g.replace(" = ", " : "), g.lower() if g.lower() != g else g.upper()]
+        for v in variants:
+            if v == g:
+                continue
+            for body in ([v], [g, v], [v, g], [g, v, g.replace("2 =", "5 =")], [g, "  " + v, v + " "]):
+                check_e2e(ctx, body, "separator variant %r of the canonical %s line %r" % (v, k, g))
+            # the twin sits in ANOTHER track (parsed earlier / later in the same parse)
+            for tracks in ([("ExpertSingle", [g]), ("HardDrums", [v, "9 = N 0 0"])], [("HardDrums", [v]), ("ExpertSingle", [g])]):
+                text = mk(res=960, sync=["0 = TS 4", "0 = B 1000000000"], tracks=tracks)
+                ctx.case(("e2e", text), sample=lambda: dict(tracks=tracks))
+                ctx.evaluations += 1
+                e1.check_model(ctx, "must-decode-end-to-end", text, refmodel.model(text), msg="separator variant %r in another track than its canonical twin %r" % (v, g), drop=DROP)
 
 
 def _nearmiss(ctx):
